@@ -484,7 +484,7 @@ def run_review(case):
         if not case["devs"]:
             res.violation(f"C11/review/honest-rejected/{cfg['stype']}", vc, repr(d), "summary", f"{label}: honest PSBT is not summarised")
         else:
-            res.ok("tampered PSBT rejected", nontrivial=(label, devs))
+            res.ok("tampered PSBT rejected", nontrivial=(label, devs), sample={"config": label, "tampering": case["devs"], "result": "rejected"})
         return res
     # returned a summary: check it
     sums = ref_sums(p)
@@ -516,7 +516,7 @@ def run_review(case):
         res.violation(f"C11/review/summarised-instead-of-rejected/{cfg['stype']}/{devs}", vc, "summary returned", "error", f"{label}: [{devs}] contradicts the transaction but is summarised")
         ok = False
     if ok:
-        res.ok("summary faithful" if not case["devs"] else "tampered PSBT summarised faithfully (benign or change flag withheld)", nontrivial=(label, devs, case["mode"]), sample=case if devs.startswith("out-spk") else None)
+        res.ok("summary faithful" if not case["devs"] else "tampered PSBT summarised faithfully (benign or change flag withheld)", nontrivial=(label, devs, case["mode"]), sample={"config": label, "tampering": case["devs"], "mode": case["mode"], "fee": d.get("tx_fee_sats"), "change_flags": flagged})
     return res
 
 
